@@ -13,11 +13,11 @@ T(h) == Hd(20 + h, h, 1, h - 1)
 Hdrs == {A(h) : h \in 1..N} \cup {B(h) : h \in K..N} \cup {T(h) : h \in 2..N}
 Batches == {<<x>> : x \in Hdrs} \cup {<<x, y>> : x, y \in Hdrs}
 
-StoreOp == \/ \E b \in Batches : Insert(b)
-           \/ \E h \in 1..N : RemoveHeight(h) \/ MarkSampled(h) \/ UpdateMeta(h, {1})
+BeginOp == \/ \E b \in Batches : Begin(Insert(b), Stages(b))
+           \/ \E h \in 1..N : Begin(RemoveHeight(h) \/ MarkSampled(h) \/ UpdateMeta(h, {1}), <<>>)
 
 MCInit == CInit /\ crashes = 0
-MCNext == \/ Begin(StoreOp) /\ UNCHANGED crashes
+MCNext == \/ BeginOp /\ UNCHANGED crashes
           \/ Step /\ UNCHANGED crashes
           \/ Ack /\ UNCHANGED crashes
           \/ /\ crashes < MaxCrashes /\ crashes' = crashes + 1
